@@ -377,22 +377,7 @@ NLEN_ANCHORS = [('nfc.tag.tt4.Type4Tag.NDEF._read_ndef_data', lambda f: any(isin
 triage.add('C16', 'C16-R1', key('struct.error', 'raised in nfc.tag.tt4.Type4Tag.NDEF._read_ndef_data', 'unpack(lfmt, nlen)'), NLEN_REASON, NLEN_ANCHORS)
 
 
-def _isodep_loop_runs(f):
-    """IsoDepInitiator.exchange binds `data` in a loop over range(0, len(command), self.miu): it runs at least once for a non-empty command."""
-    return any(isinstance(l, ast.For) and norm(l.iter) == 'range(0, len(command), self.miu)' for l in walk_no_nested(f.node))
-
-
-def _apdu_has_header(f):
-    """send_apdu starts the command with the four header bytes and only appends to it."""
-    st = [s for s in walk_no_nested(f.node) if isinstance(s, ast.Assign) and norm(s.targets[0]) == 'apdu']
-    return bool(st) and norm(st[0].value) == 'bytearray([cla, ins, p1, p2])' and \
-        all(norm(s.value).startswith('self.transceive(') for s in st[1:])
-
-
-ISODEP_EMPTY_REASON = ('the read follows the block loop `for offset in range(0, len(command), self.miu)`, which binds and length-checks data on every '
-                       'iteration; it is skipped only for an empty command, and send_apdu always sends the four header bytes (an empty command is an '
-                       'argument error of an application calling transceive() directly, not something a tag can cause)')
-ISODEP_EMPTY_ANCHORS = [('nfc.tag.tt4.IsoDepInitiator.exchange', _isodep_loop_runs), ('nfc.tag.tt4.Type4Tag.send_apdu', _apdu_has_header)]
+from .c12 import ISODEP_EMPTY_REASON, ISODEP_EMPTY_ANCHORS   # noqa: E402
 triage.add('C16', 'C16-R1', key('IndexError', 'raised in nfc.tag.tt4.IsoDepInitiator.exchange', 'data[0] in `while bool(data[0] & 16)`'), ISODEP_EMPTY_REASON, ISODEP_EMPTY_ANCHORS)
 
 MUTANTS = [
